@@ -1242,6 +1242,10 @@ class Manifest:
             source = self._manifest[target]
             if os.path.isabs(target):
                 raise experiment.model.errors.FlowIRManifestKeyIsAbsolutePath(target)
+            # VV: Targets are created under the instance directory, "../x" or "a/../../x" would end up outside it
+            if os.path.pardir in target.split(os.path.sep):
+                raise experiment.model.errors.FlowIRManifestSyntaxException(
+                    f'Manifest target "{target}" is invalid because it contains a parent-directory segment')
             try:
                 _, method = source.rsplit(':', 1)
             except ValueError:
